@@ -7,6 +7,7 @@ import (
 // bank ledger model (T-BANK): bal: addr -> denom -> Int ; supply: denom -> Int
 
 func (x *Exec) balOf(s *State, w *World, addr, denom *Term) *Term {
+	x.readBank = true
 	b := Select(Select(w.Bal, addr), denom)
 	s.Assume(Ge(b, Zero))
 	return b
